@@ -56,7 +56,7 @@ SHAPE_SWITCHES = {"SERIALIZATION": {"zoo1"}, "UTILITY_THEORY": {"zoo1"}}
 
 # pairs (config without X, config with X, X)
 PAIRS_QUICK = [("all-plans", "all", "PLANS"), ("all-history", "all-report", "TRANSITION_HISTORY"), ("all-report", "all", "STRUCTURE_REPORT"),
-               ("all-nolog", "all", "LOG"), ("none", "plans", "PLANS")]
+               ("all-nolog", "all", "LOG"), ("none", "plans", "PLANS"), ("all-utility", "all", "UTILITY_THEORY"), ("all-serial", "all", "SERIALIZATION")]
 PAIRS_THOROUGH = PAIRS_QUICK + [("none", "history", "TRANSITION_HISTORY"), ("none", "report", "STRUCTURE_REPORT"), ("none", "log", "LOG"), ("none", "verbose", "LOG"),
                                 ("none", "serial", "SERIALIZATION"), ("none", "utility", "UTILITY_THEORY"), ("all-utility", "all", "UTILITY_THEORY"),
                                 ("all-serial", "all", "SERIALIZATION"), ("all-li", "all", "LOG")]
